@@ -32,12 +32,12 @@ var TypeNames = []string{"user", "order", "a/b", "ghost"}
 var Keys = []string{"1", "2", "a/b", "b/c", "ключ", "user/1"}
 
 type Msg struct {
-	K      string `json:"k"` // insert update updateold delete deleteold reset snapstart snapend
-	T      int    `json:"t,omitempty"`
-	Key    int    `json:"key,omitempty"`
-	Name   string `json:"name,omitempty"`
-	N      int    `json:"n,omitempty"`
-	TxID   string `json:"txid,omitempty"`
+	K    string `json:"k"` // insert update updateold delete deleteold reset snapstart snapend
+	T    int    `json:"t,omitempty"`
+	Key  int    `json:"key,omitempty"`
+	Name string `json:"name,omitempty"`
+	N    int    `json:"n,omitempty"`
+	TxID string `json:"txid,omitempty"`
 }
 
 type Case struct {
@@ -51,6 +51,9 @@ type Case struct {
 	// OffStyle selects the offsets of hand-built events in Direct mode:
 	// 0 zero-padded, 1 unpadded decimal, 2 opaque unordered tokens.
 	OffStyle int `json:"off_style,omitempty"`
+	// NoCB is a mask of materializer callbacks that are NOT installed
+	// (1 OnReset, 2 OnSnapshot, 4 OnError): the fold must not depend on them.
+	NoCB int `json:"no_cb,omitempty"`
 }
 
 func (c *Case) offset(i int) eventbus.Offset {
@@ -72,14 +75,23 @@ type mat struct {
 	resets   int
 	snaps    []bool
 	onErrors int
+	noCB     int
 }
 
-func newMat(strict bool) *mat {
+func newMat(strict bool, noCB ...int) *mat {
 	x := &mat{}
-	opts := []state.MaterializerOption{
-		state.WithOnReset(func() { x.resets++ }),
-		state.WithOnSnapshot(func(start bool) { x.snaps = append(x.snaps, start) }),
-		state.WithOnError(func(error) { x.onErrors++ }),
+	if len(noCB) > 0 {
+		x.noCB = noCB[0]
+	}
+	var opts []state.MaterializerOption
+	if x.noCB&1 == 0 {
+		opts = append(opts, state.WithOnReset(func() { x.resets++ }))
+	}
+	if x.noCB&2 == 0 {
+		opts = append(opts, state.WithOnSnapshot(func(start bool) { x.snaps = append(x.snaps, start) }))
+	}
+	if x.noCB&4 == 0 {
+		opts = append(opts, state.WithOnError(func(error) { x.onErrors++ }))
 	}
 	if strict {
 		opts = append(opts, state.WithStrictSchema())
@@ -118,10 +130,10 @@ func (x *mat) snapshot() string {
 }
 
 type model struct {
-	data    map[string]map[string]string // type -> key -> JSON value
-	resets  int
-	snaps   []bool
-	last    eventbus.Offset
+	data   map[string]map[string]string // type -> key -> JSON value
+	resets int
+	snaps  []bool
+	last   eventbus.Offset
 }
 
 func newModel() *model {
@@ -330,10 +342,10 @@ func Run(c *Case) *vkit.Outcome {
 		if x.m.LastOffset() != md.last {
 			o.Failf("", "%s: LastOffset = %q, offset of the last applied event is %q", what, x.m.LastOffset(), md.last)
 		}
-		if x.resets != md.resets {
+		if x.noCB&1 == 0 && x.resets != md.resets {
 			o.Failf("", "%s: reset callback fired %d times for %d reset messages", what, x.resets, md.resets)
 		}
-		if fmt.Sprint(x.snaps) != fmt.Sprint(md.snaps) {
+		if x.noCB&2 == 0 && fmt.Sprint(x.snaps) != fmt.Sprint(md.snaps) {
 			o.Failf("", "%s: snapshot callbacks %v, expected %v", what, x.snaps, md.snaps)
 		}
 		// Get agrees with All for every key
@@ -366,7 +378,7 @@ func Run(c *Case) *vkit.Outcome {
 	}
 
 	// one session
-	one := newMat(c.Strict)
+	one := newMat(c.Strict, c.NoCB)
 	var err1 error
 	if c.Direct {
 		_, err1 = applyRange(one, 0, len(events))
@@ -395,27 +407,27 @@ func Run(c *Case) *vkit.Outcome {
 		goto classify
 	}
 	{
-	two := newMat(c.Strict)
-	if c.Direct {
-		n, err := applyRange(two, 0, split)
-		if err == nil {
-			_, err = applyRange(two, n, len(events))
-		}
-		_ = err
-	} else {
-		n := 0
-		err := bus.Replay(ctx, eventbus.OffsetOldest, func(se *eventbus.StoredEvent) error {
-			if n >= split {
-				return errStopSession
+		two := newMat(c.Strict, c.NoCB)
+		if c.Direct {
+			n, err := applyRange(two, 0, split)
+			if err == nil {
+				_, err = applyRange(two, n, len(events))
 			}
-			n++
-			return two.m.Apply(se)
-		})
-		if err == nil || errors.Is(err, errStopSession) {
-			two.m.Replay(ctx, bus, two.m.LastOffset())
+			_ = err
+		} else {
+			n := 0
+			err := bus.Replay(ctx, eventbus.OffsetOldest, func(se *eventbus.StoredEvent) error {
+				if n >= split {
+					return errStopSession
+				}
+				n++
+				return two.m.Apply(se)
+			})
+			if err == nil || errors.Is(err, errStopSession) {
+				two.m.Replay(ctx, bus, two.m.LastOffset())
+			}
 		}
-	}
-	check(fmt.Sprintf("two sessions split at %d", split), two)
+		check(fmt.Sprintf("two sessions split at %d", split), two)
 	}
 classify:
 
